@@ -137,7 +137,7 @@ def run(run, want, tier):
             if 'C02' in want or 'C03' in want:
                 muts = muts + structured_mutations(data, tier)
             if 'C02' in want or 'C05' in want:
-                muts = muts + text_mutations(data, tier)
+                muts = muts + text_mutations(data, tier) + json_mutations(data)
         tasks.append((corpus.class_path(cls), data, tuple(want), name in FRAMING_NAMES, muts))
     otasks = []
     if 'C01' in want or 'C05' in want:
@@ -184,6 +184,16 @@ def text_mutations(data, tier):
                 out.append(data[:i] + t + data[i:])
             start = i + len(sep)
     return out
+
+
+def json_mutations(data):
+    """for JSON-valued fields: syntactically valid JSON documents of every top-level kind and members of the wrong kind"""
+    if not data.lstrip()[:1] == b'{':
+        return []
+    return [b'5', b'-1', b'1e400', b'true', b'false', b'null', b'"max_age"', b'"report_to"', b'["report_to","max_age"]', b'[]', b'{}',
+            b'""', b'[{}]', b'{"max_age":null}', b'{"report_to":5,"max_age":"x"}', b'{"report_to":[],"max_age":{}}',
+            b'{"report_to":"a","max_age":1e400}', b'{"report_to":"a","max_age":1,"success_fraction":"x"}',
+            b'{"report_to":"a","max_age":1,"failure_fraction":[1]}', b'{"report_to":"a","max_age":true,"include_subdomains":"yes"}']
 
 
 def structured_mutations(data, tier):
